@@ -1,5 +1,5 @@
 (* C10: the same component set started under several registration orders (and repeated, so that Go's
-   map iteration order varies): every run must agree with the model (wcheck on each) and, independently
+   map iteration order varies): every run must agree with the model (wcheck_obs on each) and, independently
    of the model, the runs must agree with each other on the order-insensitive projection. *)
 From Coq Require Import List Arith Bool.
 From IocVerif Require Import Model.App Corr.Wiring Corr.WiringOracles.
@@ -31,7 +31,7 @@ Definition obs_equiv (a b : obs) : bool :=
 Definition with_obs (c : wcase) (o : obs) : wcase := mkW (w_id c) (w_scn c) (w_lookups c) o (w_x c).
 
 Definition check_case (c : pcase) : bool :=
-  wcheck (p_base c) && forallb (fun o => wcheck (with_obs (p_base c) o)) (p_others c).
+  wcheck_obs (p_base c) && forallb (fun o => wcheck_obs (with_obs (p_base c) o)) (p_others c).
 
 Definition oracle_case (c : pcase) : bool :=
   forallb (fun o => obs_equiv (w_obs (p_base c)) o) (p_others c)
